@@ -132,9 +132,11 @@ func (g *Gossip) ack(ctx context.Context, ack Message) (ack2 Message) {
 	g.Store.Merge(ctx, ack.Nodes)
 	ack2 = Message{Nodes: make(node.Group)}
 	for _, dig := range ack.Digests {
-		// If we have the node, and our version is newer, return it to the
-		// peer.
-		if n, ok := snap.Nodes[dig.Key]; ok && n.Heartbeat.OlderThan(dig.Heartbeat) {
+		// If we have the node, and our version is not behind the peer's, return it
+		// to the peer. The peer only sends digests for nodes it is missing (with a
+		// zero heartbeat) or holds an out of date version of, so a node at the zero
+		// heartbeat that the peer has never seen must still be sent.
+		if n, ok := snap.Nodes[dig.Key]; ok && !n.Heartbeat.YoungerThan(dig.Heartbeat) {
 			ack2.Nodes[dig.Key] = n
 		}
 	}
